@@ -12,6 +12,7 @@ import (
 	"path/filepath"
 	"runtime"
 	"sort"
+	"strconv"
 	"strings"
 	"sync"
 	"time"
@@ -48,7 +49,14 @@ func init() {
 	// the synthetic runtime is selected through the environment variable the registry reads
 	os.Setenv("SUBSTREAMS_WASM_RUNTIME", "verifdsl")
 	os.Setenv("VERIF_NO_RAMPUP", "1")
+	// VERIF_FSB=n runs the whole process with a chain whose first streamable block is n
+	if v, err := strconv.ParseUint(os.Getenv("VERIF_FSB"), 10, 64); err == nil && v > 0 {
+		bstream.GetProtocolFirstStreamableBlock = v
+	}
 }
+
+// FSB is the first streamable block of this process' chain.
+func FSB() uint64 { return bstream.GetProtocolFirstStreamableBlock }
 
 // Step is one signal of the block source.
 type Step struct {
@@ -62,13 +70,40 @@ type Step struct {
 	Junction bstream.BlockRef // for undo steps
 }
 
-// LinearChain returns the steps of a fork-free chain [0, head]: every block new and final at once.
+// LinearChainLag returns a fork-free chain in which the blocks up to finalUpTo are new and final at once and
+// the later ones arrive as new, each followed (lag blocks later) by the irreversible signal of an earlier block.
+func LinearChainLag(head, finalUpTo, lag uint64) []Step {
+	var out []Step
+	first := bstream.GetProtocolFirstStreamableBlock
+	lastFinal := finalUpTo
+	for n := first; n <= head; n++ {
+		id := BlockID(n)
+		parent := ""
+		if n > first {
+			parent = BlockID(n - 1)
+		}
+		if n <= finalUpTo {
+			out = append(out, Step{Num: n, ID: id, Parent: parent, Step: bstream.StepNewIrreversible, LIBNum: n, LIBID: id})
+			continue
+		}
+		out = append(out, Step{Num: n, ID: id, Parent: parent, Step: bstream.StepNew, LIBNum: lastFinal, LIBID: BlockID(lastFinal)})
+		if n >= lag && n-lag > lastFinal {
+			for f := lastFinal + 1; f <= n-lag; f++ {
+				out = append(out, Step{Num: f, ID: BlockID(f), Step: bstream.StepIrreversible, LIBNum: f, LIBID: BlockID(f), Head: bstream.NewBlockRef(id, n)})
+			}
+			lastFinal = n - lag
+		}
+	}
+	return out
+}
+
+// LinearChain returns the steps of a fork-free chain [first streamable block, head]: every block new and final at once.
 func LinearChain(head uint64) []Step {
 	var out []Step
-	for n := uint64(0); n <= head; n++ {
+	for n := bstream.GetProtocolFirstStreamableBlock; n <= head; n++ {
 		id := BlockID(n)
 		s := Step{Num: n, ID: id, Step: bstream.StepNewIrreversible, LIBNum: n, LIBID: id}
-		if n > 0 {
+		if n > bstream.GetProtocolFirstStreamableBlock {
 			s.Parent = BlockID(n - 1)
 		}
 		out = append(out, s)
@@ -297,8 +332,14 @@ func (cfg *Config) streamFactory(tier2 bool) service.StreamFactoryFunc {
 			for _, st := range cfg.Steps {
 				if st.Step == bstream.StepNewIrreversible {
 					finals = append(finals, st)
+				} else if st.Step == bstream.StepIrreversible {
+					f := st
+					f.Step = bstream.StepNewIrreversible // tier2 reads merged blocks: final ones, delivered as new+irreversible
+					f.Head = nil
+					finals = append(finals, f)
 				}
 			}
+			sort.SliceStable(finals, func(i, j int) bool { return finals[i].Num < finals[j].Num })
 			src.steps = finals
 		}
 		return src, nil
@@ -339,6 +380,7 @@ func (w *worker) Work(ctx context.Context, unit stage.Unit, startBlock uint64, m
 		StateStoreDefaultTag: "tag",
 		MergedBlockStoreURL:  filepath.Join(cfg.Dir, "merged-blocks"),
 		MeteringConfig:       "null://",
+		FirstStreamableBlock: bstream.GetProtocolFirstStreamableBlock,
 	})
 	request := work.NewRequest(ctx, reqctx.Details(ctx), unit.Stage, startBlock)
 	ws := w.w
@@ -445,6 +487,7 @@ func Tier2Request(cfg *Config, mods *pbsubstreams.Modules, output string, stageI
 		Modules: mods, OutputModule: output, Stage: uint32(stageIdx), MeteringConfig: "null://",
 		MergedBlocksStore: filepath.Join(cfg.Dir, "merged-blocks"), StateStore: filepath.Join(cfg.Dir, "test.store"),
 		SegmentSize: cfg.Seg, SegmentNumber: segment, StateStoreDefaultTag: "tag", BlockType: BlockType,
+		FirstStreamableBlock: bstream.GetProtocolFirstStreamableBlock,
 	}
 }
 
@@ -455,6 +498,7 @@ func BaseContext(ctx context.Context, cfg *Config) context.Context {
 	ctx = reqctx.WithTier2RequestParameters(ctx, reqctx.Tier2RequestParameters{
 		BlockType: BlockType, StateBundleSize: cfg.Seg, StateStoreURL: filepath.Join(cfg.Dir, "test.store"),
 		StateStoreDefaultTag: "tag", MergedBlockStoreURL: filepath.Join(cfg.Dir, "merged-blocks"), MeteringConfig: "null://",
+		FirstStreamableBlock: bstream.GetProtocolFirstStreamableBlock,
 	})
 	return ctx
 }
